@@ -161,8 +161,13 @@ def main():
         args = args[:i] + args[i + 2:]
     ids = [a for a in args if a.startswith("C")] or ALL
     if mode == "confirm":
+        def safe(ch):
+            try:
+                return confirm_one(ch)
+            except Exception as ex:
+                return "%s-%s %s: ERROR %s: %s" % (ch[1], ch[2], ch[0], type(ex).__name__, ex)
         with ThreadPoolExecutor(jobs) as ex:
-            for line in ex.map(confirm_one, changes(ids)):
+            for line in ex.map(safe, changes(ids)):
                 print(line, flush=True)
     elif mode == "run":
         for ch in changes(ids):
